@@ -32,7 +32,7 @@ ASSUMPTIONS = [
     'the string used to break a rex constraint is one that no discovered expression matches under Python re with and without DOTALL',
 ]
 REQUIRED_MONITORS = ['tables:big', 'perturb:fraction_in_integer_column', 'connection:named_db_beside_connection_file', 'closure:clean', 'perturb:min', 'perturb:max', 'perturb:min_length', 'perturb:max_length',
-                     'perturb:allowed_values', 'perturb:no_duplicates', 'perturb:max_nulls', 'perturb:rex',
+                     'perturb:allowed_values', 'perturb:no_duplicates', 'perturb:max_nulls', 'perturb:rex', 'perturb:rex_multiline',
                      'perturb:sign', 'sql:statements', 'rollback:clean',
                      'sql:regexp_statements', 'sql:regexp_with_quote_in_expression']
 REQUIRED_CLASSES = ['rex=0', 'rex=1', 'rows=0', 'nulls=all'] + ['sqltype=%s' % s for s in T.SQLTYPES]
@@ -204,6 +204,18 @@ def run_case(ctx, case):
                 # SQLite keeps a value that is not a whole number as a REAL even in a column declared INTEGER: half a step
                 # beyond the bound breaks it as surely as a whole step
                 bvs.append((bv + value) / 2.0 if kind != 'sign' else bv / 2.0)
+            if kind == 'rex':
+                # a value of the column (which some expression matches) continued on further lines: '^...$' must not stop at
+                # the first line end (no re.MULTILINE in the documented matching), and lone trailing text after '\n' is no match
+                comps = [(re.compile(r), re.compile(r, re.U | re.S)) for r in value]
+                for base in [v for v in col['values'] if isinstance(v, str) and v][:3]:
+                    for tail in ('\n?? not a value ??', '\n\n', '\r\nx'):
+                        cand = base + tail
+                        if not any(a.match(cand) or b.match(cand) for a, b in comps):
+                            bvs.append(cand)
+                            rec.event('perturb:rex_multiline')
+                            break
+                bvs = bvs[:3]
             for bv in bvs:
                 step = {'field': name, 'kind': kind, 'constraint': common.jsafe(value), 'row_value': common.jsafe(bv)}
                 rec.case({'spec': spec, 'rex': case['rex'], 'step': step}, nontrivial=True, cls=[('step=' + kind,)])
